@@ -379,7 +379,7 @@ def make_chain(rng, force=()):
     k = rng.fork("chainshape")
     newest = E.with_versions(base, rng.fork("ver"), k.choice([1, 2, 2, 3]), partial=True, must_edit=must,
                              order=k.choice(["oldest_first", "oldest_first", "newest_first", "shuffled"]), p_new_protocol=k.choice([0.0, 0.4]),
-                             widen_steps=("evo3", "evo4", "evo6", "evo7", "evo10", "value", "values"), widen_aliases=wal, union_steps=ust, to_union_steps=tust, tail_records=tails, fixed_vector_records=fvr, reorder_only=ro, enum_bases=eb, tail_p=1.0 if "tail" in force else 0.6)
+                             widen_steps=("evo3", "evo4", "evo6", "evo7", "evo10", "value", "values"), widen_aliases=wal, union_steps=ust, to_union_steps=tust, tail_records=tails, fixed_vector_records=fvr, reorder_only=ro, enum_bases=eb, tail_p=1.0 if "tail" in force else 0.6, add_stream_p=0.4)
     newest.speculative = bool(eb)
     # where the previous versions come from: directories next to the package, or commits of one git repository named by URL
     newest.versions_from_git = k.fork("git").chance(0.3)
@@ -417,7 +417,7 @@ def run_modes(model, cm, old_models, proto, rng, stats, viols, ctx, only=None):
             vals_new = sw.gen_values(env_new, ns, proto, r.fork("new"), finite=True, items=(0, 4))
             data_new = codec_new.encode_stream(proto, ns, schema_new, vals_new, sw.gen_partitions(proto, vals_new, r))
             inputs.append(data_new)
-            if rep == 0:
+            if rep == 0 and len(old_proto.steps) == len(proto.steps):
                 # (d) the caller's variables are reused from file to file: a file of the current version is read into them first,
                 # then the old one into the same variables (what the new version added must come out as the default all the same),
                 # and what the second pass delivered is written out under the current version
@@ -426,7 +426,7 @@ def run_modes(model, cm, old_models, proto, rng, stats, viols, ctx, only=None):
                     for k_, (_, _, st_) in enumerate(steps_):
                         ops_ += ([["R1D", k_]] * (len(vv[k_]) + 1)) if st_ else [["R1D", k_]]
                     return ops_
-                script = [["mkRI", "binary", len(inputs) - 1]] + read_all(vals_new, proto.steps) + [["CR"], ["CLRQ"], ["mkRI", "binary", len(inputs) - 2]] + read_all(vals_old, old_proto.steps if len(old_proto.steps) == len(proto.steps) else proto.steps)
+                script = [["mkRI", "binary", len(inputs) - 1]] + read_all(vals_new, proto.steps) + [["CR"], ["CLRQ"], ["mkRI", "binary", len(inputs) - 2]] + read_all(vals_old, proto.steps)
                 script += [["CR"], ["mkW", "binary", "Current"]]
                 if len(old_proto.steps) == len(proto.steps):
                     for k_, (_, _, st_) in enumerate(proto.steps):
